@@ -2,7 +2,7 @@
    only; every proof is `exact`.  The percent-quoting table is [gen_to_quote], regenerated from
    /repo/gffutils/parser.py on every run. *)
 From GV Require Import Base.Prelude Base.PyStr Base.Utf8 Model.DB Model.Parser Model.Grammar Gen.GenConst
-  Proofs.GenConstEquiv Proofs.C08Proofs Proofs.C08Round Proofs.C08Gtf.
+  Proofs.GenConstEquiv Proofs.C08Proofs Proofs.C08Round Proofs.C08Gtf Proofs.C07Proofs Proofs.C08Line.
 Open Scope N_scope.
 
 (* percent-encoding is inverted by unquote for EVERY string over all code points *)
@@ -30,6 +30,17 @@ Theorem C08_roundtrip_gtf : forall D m, gtf_standard D = true -> gtf_mapping_ok 
   split_with D (reconstruct gen_to_quote m D false false) = Ok m.
 Proof. rewrite gen_to_quote_eq. exact l_roundtrip_gtf. Qed.
 Print Assumptions C08_roundtrip_gtf.
+
+(* the printed Feature is ONE line of exactly nine tab-separated columns plus the extra columns, whatever
+   unicode the attribute values hold, for every GFF3-style dialect, keep_order and sort_attribute_values
+   setting (columns 1-8 and the extra columns themselves free of tab / LF / CR) *)
+Theorem C08_single_line : forall f, gff3_style (f_dialect f) = true -> mapping_ok (f_attrs f) = true ->
+  (forall col, In col ([f_seqid f; f_source f; f_ftype f; f_score f; f_strand f; f_frame f] ++ f_extra f) ->
+     forall c, In c col -> ~ ctl c) ->
+  count_char TAB (feature_str gen_to_quote f) = (8 + length (f_extra f))%nat /\
+  forall c, In c (feature_str gen_to_quote f) -> c <> 10 /\ c <> 13.
+Proof. rewrite gen_to_quote_eq. exact l_single_line. Qed.
+Print Assumptions C08_single_line.
 
 (* totality of the supplied-dialect path: no string makes it raise (for a dialect whose
    separators are non-empty); the inference path [split_infer] is a total function whose only
